@@ -1,6 +1,7 @@
 import PlinioVerif.Lemmas.PIT.Sharing
 import PlinioVerif.Props.C08
 import PlinioVerif.Lemmas.PIT.Labels
+import PlinioVerif.Model.PIT.FeatCalc
 /-!
 # C09 — every layer sees exactly the alive features of the tensor that reaches it
 
@@ -207,6 +208,57 @@ theorem exported_layer_keeps_a_feature (g : Group) (hw : 0 < g.width) (a : List 
   · rw [countT_replicate]; simp only [if_true]; omega
   · have h1 := C08.out_features_opt_pos g.width hw (ofList a)
     unfold countTrue at h1; unfold countT; exact h1
+
+/-! ### the features calculators themselves (`plinio/graph/features_calculation.py`)
+
+The real classes compute the *number* of features and the features *mask* by two separate recursions over
+the calculator tree (count: constant / producer attribute / × multiplier / sum; mask: ones / producer mask /
+every entry repeated / concatenation).  For every tree — any nesting of flatten and concat over searchable,
+fixed and input leaves — the number is exactly the number of alive entries of the mask, and the mask has the
+width of the tensor.  (`Drivers/FeatCalc.lean` runs these definitions against the real classes.) -/
+
+theorem expand_length (m : List Bool) (k : ℕ) : (expand m k).length = m.length * k := by
+  unfold expand
+  induction m with
+  | nil => simp
+  | cons b m ih =>
+    rw [List.map_cons, List.flatten_cons, List.length_append, ih, List.length_replicate, List.length_cons]; ring
+
+mutual
+theorem calculator_features_eq_alive_mask : ∀ c : FC, c.features = countT c.mask
+  | .const n => by simp [FC.features, FC.mask, countT_replicate]
+  | .attr m => rfl
+  | .flat p k => by
+      rw [FC.features, FC.mask, countT_expand, calculator_features_eq_alive_mask p, Nat.mul_comm]
+  | .cat l => by rw [FC.features, FC.mask]; exact calculators_sum_eq_alive_masks l
+theorem calculators_sum_eq_alive_masks : ∀ l : List FC, FC.featuresSum l = countT (FC.masks l)
+  | [] => rfl
+  | c :: cs => by
+      rw [FC.featuresSum, FC.masks, countT_append, calculator_features_eq_alive_mask c,
+        calculators_sum_eq_alive_masks cs]
+end
+
+mutual
+theorem calculator_mask_length : ∀ c : FC, c.mask.length = c.width
+  | .const n => by simp [FC.mask, FC.width]
+  | .attr m => rfl
+  | .flat p k => by rw [FC.mask, FC.width, expand_length, calculator_mask_length p]
+  | .cat l => by rw [FC.mask, FC.width]; exact calculators_masks_length l
+theorem calculators_masks_length : ∀ l : List FC, (FC.masks l).length = FC.widthSum l
+  | [] => rfl
+  | c :: cs => by
+      rw [FC.masks, FC.widthSum, List.length_append, calculator_mask_length c, calculators_masks_length cs]
+end
+
+/-- the alive features never exceed the width, on every tree -/
+theorem calculator_features_le_width (c : FC) : c.features ≤ c.width := by
+  rw [calculator_features_eq_alive_mask, ← calculator_mask_length]
+  unfold countT; exact List.length_filter_le _ _
+
+/-- non-vacuity: flatten(×2) of a concat of a pruned layer, a fixed width and a flattened pruned layer -/
+example :
+    let c : FC := .flat (.cat [.attr [true, false, true], .const 2, .flat (.attr [false, true]) 3]) 2
+    c.features = 14 ∧ c.width = 22 ∧ countT c.mask = 14 := by decide
 
 /-! ### the two unsupported topologies (open known findings), witnessed on the model -/
 
